@@ -222,32 +222,41 @@ class StreamItemQueue:
                 if is_awaitable(cleanup):
                     return cleanup
             return None
-        return self._cleanup(reason)
+        return self._cleanup(reason, cancel_pending=False)
 
     async def _settle_parked(self) -> None:
         """Await the cancelled parked producer and settle pending item futures."""
         # the callers guarantee that the producer task has been created
         producer_task = cast("Task[None]", self._producer_task)
         await gather(producer_task, return_exceptions=True)
-        await self._settle_pending()
+        # the pending item futures have already been cancelled by the callers
+        await self._settle_pending(cancel=False)
 
-    async def _settle_pending(self) -> None:
-        """Cancel and settle all still pending item futures."""
+    async def _settle_pending(self, cancel: bool = True) -> None:
+        """Cancel and settle all still pending item futures.
+
+        Futures that have been cancelled before must not be cancelled again,
+        since this would interrupt the cleanup they run while unwinding.
+        """
         pending = [future for future in self._pending_futures if not future.done()]
         if pending:
-            for future in pending:
-                future.cancel()
+            if cancel:
+                for future in pending:
+                    future.cancel()
             await gather(*pending, return_exceptions=True)
 
-    async def _cleanup(self, reason: BaseException | None = None) -> None:
+    async def _cleanup(
+        self, reason: BaseException | None = None, cancel_pending: bool = True
+    ) -> None:
         """Cancel all pending work, awaiting it, and run the abort callback."""
         self._aborted = True
         producer_task = self._producer_task
         if producer_task is not None and not producer_task.done():
-            producer_task.cancel()
-            self._producer_cancelled = True
+            if not self._producer_cancelled:
+                producer_task.cancel()
+                self._producer_cancelled = True
             await gather(producer_task, return_exceptions=True)
-        await self._settle_pending()
+        await self._settle_pending(cancel_pending)
         on_abort = self._on_abort
         if on_abort is not None:
             cleanup = on_abort(reason)
